@@ -41,7 +41,10 @@ class PEval(object):
         self.fn = model.funcs[fname]
         self.g = model.cfg(fname)
         self.cn = Canon(model, fname)
+        self._cur_env = {}
+        self.cn.index_eval = lambda i, nid: self.ev(i, self._cur_env, nid)
         self.pidx = dict((p[0], p[3]) for p in self.fn.params)
+        self._pfield = None
         self._locals = set(n.ref for n in walk(self.fn.body) if n.k == 'var') | set(p[3] for p in self.fn.params)
         self.store_filter = None     # optional: (path string, field) -> record the store event?
         self.record_sets = True
@@ -50,6 +53,7 @@ class PEval(object):
     def ev(self, x, env, nid):
         if x is None:
             return None
+        self._cur_env = env
         k = x.k
         if k == 'int':
             return x.val
@@ -65,6 +69,10 @@ class PEval(object):
             return None
         if k == 'sizeof':
             return x.val
+        if k == 'un' and x.op == '&':
+            return 1          # address of an object: some non-null pointer
+        if k in ('mem', 'idx') and x.cty is not None and '[' in x.cty and '(*' not in x.cty:
+            return 1          # array used as a value decays to a non-null pointer
         if k in ('mem', 'idx') or (k == 'un' and x.op == '*'):
             # constant global data (tables of scalars or structs, also through local aliases)
             o = self.resolve_obj(x, env, nid)
@@ -77,17 +85,18 @@ class PEval(object):
                 return None
             c = self.cn.canon(nid, x)
             if c is not None:
-                key = c[0]
-                # fold variable indices that are known
-                return env.get(('p', self._fold_index(key, env)))
-            return None
+                v = env.get(('p', c[0]))
+                if v is not None:
+                    return v
+            # input paths may also be given as written in the source (through a local pointer)
+            return env.get(('p', show(x)))
         if k == 'cast':
             v = self.ev(x.kids[0], env, nid)
             if v is None:
                 return None
             return _wrap(v, x.cty)
         if k == 'un':
-            if x.op in ('++', '--', 'post++', 'post--', '&'):
+            if x.op in ('++', '--', 'post++', 'post--'):
                 return None
             v = self.ev(x.kids[0], env, nid)
             if v is None:
@@ -144,6 +153,39 @@ class PEval(object):
     def _fold_index(self, key, env):
         return key
 
+    def field_of_key(self, key):
+        """(record, field) identity of the last member of an env path string, from the function's own expressions"""
+        import re
+        if self._pfield is None:
+            self._pfield = {}
+            for node in self.g.nodes:
+                if node.x is None:
+                    continue
+                for n in walk(node.x):
+                    if n.k == 'mem':
+                        c = self.cn.canon(node.id, n)
+                        if c is not None:
+                            self._pfield[re.sub(r'\[[^\]]*\]', '[]', c[0])] = n.field
+                        self._pfield.setdefault(re.sub(r'\[[^\]]*\]', '[]', show(n)), n.field)
+                    elif n.k == 'idx':
+                        b = strip(n.kids[0])
+                        if b.k == 'mem':
+                            c = self.cn.canon(node.id, n)
+                            if c is not None:
+                                self._pfield[re.sub(r'\[[^\]]*\]', '[]', c[0])] = b.field
+        return self._pfield.get(re.sub(r'\[[^\]]*\]', '[]', key))
+
+    def _key_hit(self, key, flds):
+        """may a store to one of the fields `flds` change env path `key`?"""
+        fid = self.field_of_key(key)
+        if fid is not None:
+            return fid in flds
+        for f in flds:
+            sfx = f[1]
+            if key.endswith('.' + sfx) or key.endswith('>' + sfx) or ('.' + sfx + '[') in key or ('>' + sfx + '[') in key:
+                return True
+        return False
+
     def resolve_obj(self, x, env, nid, depth=0):
         """IR initialiser node of the constant global object the lvalue x denotes, else None"""
         x = strip(x)
@@ -199,6 +241,7 @@ class PEval(object):
 
     # ------------------------------------------------------------ statements
     def _store(self, lhs, val, env, nid, events, line, rhs=None):
+        self._cur_env = env
         l = strip(lhs)
         if l.k == 'ref' and l.refk in ('VarDecl', 'ParmVarDecl'):
             if val is None:
@@ -226,10 +269,7 @@ class PEval(object):
         key = c[0]
         # may-alias: other paths ending in the same field are forgotten
         if fld is not None:
-            suffix = fld[1]
-            for k in [k for k in env if k[0] == 'p' and k[1] != key and
-                      (k[1].endswith('.' + suffix) or k[1].endswith('>' + suffix) or ('.' + suffix + '[') in k[1]
-                       or ('>' + suffix + '[') in k[1])]:
+            for k in [k for k in env if k[0] == 'p' and k[1] != key and self._key_hit(k[1], set([fld]))]:
                 env.pop(k, None)
         if val is None:
             env.pop(('p', key), None)
@@ -278,15 +318,10 @@ class PEval(object):
                     for k in [k for k in env if k[0] == 'p']:
                         env.pop(k, None)
                 else:
+                    fl = set(f for f in flds if f[0] != '*')
                     for k in [k for k in env if k[0] == 'p']:
-                        for f in flds:
-                            if f[0] == '*':
-                                continue
-                            sfx = f[1]
-                            if k[1].endswith('.' + sfx) or k[1].endswith('>' + sfx) or ('.' + sfx + '[') in k[1] \
-                                    or ('>' + sfx + '[') in k[1]:
-                                env.pop(k, None)
-                                break
+                        if self._key_hit(k[1], fl):
+                            env.pop(k, None)
                 for ai, a in enumerate(n.kids[1:]):
                     a = strip(a)
                     if a.k == 'un' and a.op == '&':
@@ -465,7 +500,7 @@ class PEval(object):
                 elif n.k == 'call':
                     flds, unknown = self.m.call_modset(n)
                     for k in [k for k in env if k[0] == 'p']:
-                        if unknown or any(k[1].endswith('.' + f[1]) or k[1].endswith('>' + f[1]) for f in flds):
+                        if unknown or self._key_hit(k[1], set(flds)):
                             env.pop(k, None)
                 if tgt is None:
                     continue
@@ -476,9 +511,7 @@ class PEval(object):
                     while t is not None and t.k == 'idx':
                         t = strip(t.kids[0])
                     if t is not None and t.k == 'mem':
-                        sfx = t.field[1]
-                        for k in [k for k in env if k[0] == 'p' and (k[1].endswith('.' + sfx) or k[1].endswith('>' + sfx)
-                                                                     or ('.' + sfx + '[') in k[1] or ('>' + sfx + '[') in k[1])]:
+                        for k in [k for k in env if k[0] == 'p' and self._key_hit(k[1], set([t.field]))]:
                             env.pop(k, None)
                     else:
                         for k in [k for k in env if k[0] == 'p']:
